@@ -228,7 +228,7 @@ func (s *Sim) Step(w World, allowTime bool) bool {
 		fmt.Fprintf(os.Stderr, "==== stacks at step %d, fake time %v ====\n%s\n", s.Steps, s.Now(), buf[:n])
 	}
 	// reseed the select shuffle so that arm choice is a function of the tape position only
-	simSelectSeed(Mix(s.SelSeed, uint64(s.Steps))|1)
+	simSelectSeed(Mix(s.SelSeed, uint64(s.Steps)) | 1)
 	switch {
 	case c.tj:
 		d := s.Strat.TimeSteps[s.Steps%len(s.Strat.TimeSteps)]
